@@ -105,6 +105,7 @@ fn generate(rng: &mut Rng) -> C10Sc {
         wplan: vec![],
         cap_ns: secs(600),
         prelude: vec![],
+        growth: None,
     };
     let gap_s = match rng.below(8) {
         0 => 0,
